@@ -39,6 +39,7 @@ CONSTANTS W,            \* workers
           MaxTries, MaxConc, RerunSet, StopSet,
           MaxBounce,    \* exploration bound: back-offs per worker
           DryRun,       \* dry run: nothing is executed or cleaned
+          NeverRun,       \* installs of permanent objects: scan_states answers "do not run" for them whatever the pools hold
           Spawner, Swarm, \* [W -> "lxc" | "remote" | ...], [W -> swarm id]
           PoolScope,      \* enabled reuse scopes, a subset of {"own", "swarm", "cluster", "shared"} containing own and shared
           OwnUnexplored, \* the cleanup of a node is also postponed while THIS worker may still unroll a flat test (fix 'postpone the
@@ -126,7 +127,7 @@ Decide(res, fin, pl, off, t, w) ==
     ELSE IF t \notin Stateful
          THEN <<NumRes(res, t, w) = 0 \/ (~off /\ ShouldRerun(res, t, w)), off>>
          ELSE LET scan == fin[t] \cap Peers(w) = {}
-                  fromscan == scan /\ ~Present(pl, t, w)
+                  fromscan == scan /\ ~Present(pl, t, w) /\ t \notin NeverRun
                   off2 == off \/ (NumRes(res, t, w) = 0 /\ ~fromscan)
               IN <<fromscan \/ (~off2 /\ ShouldRerun(res, t, w)), off2>>
 MustRun(t, w) == Decide(results, finished, pool, rerunOff[t][w], t, w)[1]
